@@ -580,3 +580,55 @@ func c07EqualityReadsOnly(p *load.Prog, r *oblig.Run) {
 		}
 	}
 }
+
+// c12UsedMarks (R12.m): the greedy one-to-one assignment of IndividualNodes.Similarity keeps "already matched" marks
+// in maps it makes itself. Every such map that is written is also consulted: a map with updates but no lookup, range,
+// len or other use is a set of marks nobody reads - the side it was meant to protect can be matched again and again
+// (one individual paired with several of the other list; the score exceeds what a one-to-one pairing allows and
+// depends on the order of the operands). Only maps made in the function itself and never handed on are judged.
+func c12UsedMarks(p *load.Prog, r *oblig.Run) {
+	r.Rule("R12.m", "every bookkeeping map the pairing of IndividualNodes.Similarity writes is also read", 1)
+	fn := p.Method(load.PkgRoot, "IndividualNodes", "Similarity")
+	if fn == nil || len(fn.Blocks) == 0 {
+		r.Add("R12.m", "anchor", "-", "anchor").Unknown("IndividualNodes.Similarity not found")
+		return
+	}
+	fns := []*ssa.Function{fn}
+	for _, c := range su.Calls(fn) {
+		if h := c.Common().StaticCallee(); h != nil && h != fn && pkgPathOf(h) == load.PkgRoot && len(h.Blocks) > 0 && h.Object() != nil && !h.Object().Exported() {
+			fns = append(fns, h)
+		}
+	}
+	o := r.Add("R12.m", "used-marks of IndividualNodes.Similarity", p.Pos(fn.Pos()), "maps made, written and read by the pairing")
+	bad, n := "", 0
+	for _, f := range fns {
+		for _, b := range f.Blocks {
+			for _, ins := range b.Instrs {
+				mm, ok := ins.(*ssa.MakeMap)
+				if !ok || mm.Referrers() == nil {
+					continue
+				}
+				writes, others := 0, 0
+				for _, ref := range *mm.Referrers() {
+					if mu, isU := ref.(*ssa.MapUpdate); isU && mu.Map == ssa.Value(mm) {
+						writes++
+						continue
+					}
+					if _, isDbg := ref.(*ssa.DebugRef); isDbg {
+						continue
+					}
+					others++ // lookup, range, len, call argument, store, return, phi ...: the marks are consulted or leave the function
+				}
+				n++
+				if writes > 0 && others == 0 && bad == "" {
+					bad = "the map made at " + p.Pos(mm.Pos()) + " in " + load.FuncName(f) + " is written " + fmt.Sprint(writes) + " time(s) and never read"
+				}
+			}
+		}
+	}
+	if bad != "" {
+		o.Fail(bad + ": the marks it keeps protect nothing - an individual of that side can be paired more than once, the total is no longer that of a one-to-one assignment and changes when the operands are swapped")
+	} else {
+		o.OK(fmt.Sprintf("%d map(s) made by the pairing; each one that is written is also consulted", n))
+	}
+}
